@@ -26,7 +26,7 @@ from typing import List, Optional, Set
 from ..cfg import CFG
 from ..model import FuncInfo, Repo, dotted, load_repo
 from ..report import AnalysisError, Report
-from ..util import canon_func, body_walk, src, walk_no_nested
+from ..util import canon_func, store_targets, body_walk, src, walk_no_nested
 
 P = "fickling.fickle.Pickled"
 
@@ -104,6 +104,21 @@ def check_concat(repo: Repo, rep: Report):
         st = [n for n in body_walk(ds.node) if isinstance(n, ast.Assign) and dotted(n.targets[0]) == "self._data"]
         if not (len(st) == 1 and isinstance(st[0].value, ast.Name) and st[0].value.id in ds.params()):
             rep.bad("C06.concat", ds.qualname, "setter-transforms", "Opcode.data setter does not store its value unchanged", ds.file, ds.line)
+    # no opcode class fills its retained bytes by itself: the parser hands over the source bytes (or None, to be completed
+    # from the stream once the next opcode's position is known - the completion is guarded by `not has_data()`)
+    n_sub = 0
+    for c in repo.subclasses(op, strict=True):
+        n_sub += 1
+        for name, fs in c.methods.items():
+            for f in fs:
+                for n in body_walk(f.node):
+                    if isinstance(n, (ast.Assign, ast.AugAssign, ast.AnnAssign)):
+                        for t in store_targets(n):
+                            if dotted(t) in ("self._data", "self.data"):
+                                rep.bad("C06.concat", f.qualname, f"data-self-filled:{c.name}", f"`{src(n)}`: {c.name} sets its own retained bytes; an opcode the parser built without bytes then counts as complete, its source bytes are never filled in from the stream, and dumps() emits a re-encoding instead of the input bytes (or construction fails on input the re-encoder cannot represent)", f.file, n.lineno)
+                    if isinstance(n, ast.Call) and dotted(n.func) == "setattr" and len(n.args) == 3 and dotted(n.args[0]) == "self" and isinstance(n.args[1], ast.Constant) and n.args[1].value in ("_data", "data"):
+                        rep.bad("C06.concat", f.qualname, f"data-self-filled:{c.name}", f"`{src(n)}`: {c.name} sets its own retained bytes", f.file, n.lineno)
+    rep.ok("C06.concat", "fickling.fickle.Opcode.*", f"{n_sub} opcode classes: none stores to its own retained bytes", "")
     # the dispatching constructor forwards data
     new = op.method("__new__")
     fw = [n for n in body_walk(new.node) if isinstance(n, ast.Call) and isinstance(n.func, ast.Subscript) and dotted(n.func.value) == "OPCODES_BY_NAME"]
@@ -111,6 +126,47 @@ def check_concat(repo: Repo, rep: Report):
         rep.ok("C06.concat", new.qualname, "Opcode(info=...) forwards *args/**kwargs (incl. data, position) to the concrete class", f"{new.file}:{new.line}")
     else:
         rep.bad("C06.concat", new.qualname, "ctor-drops-args", "Opcode.__new__ does not forward all arguments to the concrete opcode class", new.file, new.line)
+
+
+def check_ctor_total(repo: Repo, rep: Report):
+    """The parser constructs `Opcode(info=..., argument=<what genops decoded>, data=..., position=...)` for every opcode
+    of the input.  A class with its own constructor must accept every argument its pickletools descriptor can produce:
+    a constructor that raises turns a valid pickle into a PickleDecodeError (or, for the first opcode of a stacked
+    element, silently ends the stack).  Decided by interpreting the constructor (sa/objeval) over representatives."""
+    from ..minieval import PyRaise, Unsupported
+    from ..model import opcode_registry
+    from ..objeval import ObjEval
+    from .c15 import _DESC_REPS, _label
+
+    op = repo.cls("fickling.fickle.Opcode")
+    oe = ObjEval(repo)
+    ops, _ = opcode_registry(repo)
+    extra = {"stringnl_noescape_pair": ["mod attr", "a.b c", "my module attr", "Spaced Name cls", "m "], "stringnl_noescape": ["abc", "a b", ""], "unicodestring1": ["\ud800"], "unicodestring4": ["\ud800", "x" * 70000], "unicodestringnl": ["\ud800"], "float8": [float("nan"), float("inf")]}
+    n_own = 0
+    for oc in ops:
+        c = oc.cls
+        owner = next((k for k in repo.mro_classes(c) if k.method("__init__") is not None), None)
+        if owner is None or owner is op:
+            continue
+        n_own += 1
+        arg = oc.info.arg.name if oc.info.arg else None
+        reps = [r for r in _DESC_REPS.get(arg, [()]) if r != ()] + extra.get(arg, [])
+        if arg is None:
+            reps = [None]
+        bad = None
+        for r in reps:
+            try:
+                oe.ref(c)(r, 0, b"\x00")
+            except PyRaise as pe:
+                bad = (r, pe.name)
+                break
+            except Unsupported as e:
+                raise AnalysisError(f"C06.ctor-total: cannot interpret {owner.qualname}.__init__ for {oc.opname}({_label(r) if r is not None else None}): {e}")
+        if bad:
+            rep.bad("C06.retained", owner.qualname + ".__init__", f"ctor-raises:{oc.opname}", f"{c.name}({_label(bad[0]) if bad[0] is not None else None}, position, data) raises {bad[1]}: an argument the {arg} reader can produce is refused by the constructor, so Pickled.load fails (PickleDecodeError / EmptyPickleError) on a pickle the VM accepts, and a stack silently ends there", owner.module.relpath, owner.method("__init__").line)
+        else:
+            rep.ok("C06.retained", owner.qualname + ".__init__", f"{oc.opname}: own constructor accepts all {len(reps)} representative argument(s) of `{arg}`", f"{owner.module.relpath}:{owner.method('__init__').line}")
+    rep.ok("C06.retained", "fickling.fickle.Opcode.*", f"{len(ops)} opcode classes, {n_own} with a constructor of their own", "", nontrivial=False)
 
 
 def _stream_calls(node: ast.AST, stream: str) -> List[ast.Call]:
@@ -427,5 +483,6 @@ def run(rep: Report, tier: str):
     rep.assume("pickletools.genops yields (info, arg, pos) in stream order and only advances the stream (trusted tokeniser)")
     check_concat(repo, rep)
     check_load(repo, rep)
+    check_ctor_total(repo, rep)
     check_make_stream(repo, rep)
     check_stack_loop(repo, rep)
